@@ -1119,12 +1119,15 @@ class Interp:
                         raise PathEnd()
                 else:
                     cx.assume(c)
+            cx.loop_depth = getattr(cx, "loop_depth", 0) + 1
             try:
                 self.exec_block(cx, fr, st.body)
             except _Break:
                 return  # leaves the loop with the current state (orelse skipped)
             except _Continue:
                 pass
+            finally:
+                cx.loop_depth -= 1
             itst.advance(cx)
             for nm, g in lsp.invariant(cx, fr.env, itst):
                 cx.oblige(f"{tag}.inv-preserved:{nm}", "loop-preserve", g, line=line)
@@ -1181,9 +1184,17 @@ class Interp:
         postcondition. Generators as callees are not read (they need a contract of their own)."""
         if fr.spec is None or fr.qual != fr.spec.qual:
             raise Unsupported("yield outside the function under contract")
+        v = self.eval(cx, fr, e.value) if e.value is not None else None
+        if getattr(cx, "loop_depth", 0) > 0:
+            # inside a loop cut by an invariant the yields are not a finite list: the spec keeps its own ghost record
+            hook = getattr(fr.spec, "on_yield", None)
+            if hook is None:
+                raise Unsupported("yield inside a loop (the spec has no on_yield)")
+            hook(cx, v)
+            return None
         if not hasattr(cx, "yielded"):
             cx.yielded = []
-        cx.yielded.append(("one", self.eval(cx, fr, e.value) if e.value is not None else None))
+        cx.yielded.append(("one", v))
         return None
 
     def ex_YieldFrom(self, cx, fr, e):
